@@ -95,7 +95,7 @@ class Gen(object):
     def site(self, ctx, what='expr'):
         k = self.nsite
         self.nsite += 1
-        self.sites.append((ctx.pos, ctx.in_obj, ctx.live, what))
+        self.sites.append((ctx.pos, ctx.in_obj, ctx.live, what, any(n not in ctx.scope for n in ctx.near)))
         return k in self.faults
 
     def ref(self, ctx, bkind):
@@ -135,6 +135,8 @@ class Gen(object):
         kind = self.pick(kinds)
         if self.want_kind and (self.want_kind in kinds):
             kind = self.want_kind
+        elif any(n not in ctx.scope for n in ctx.near) and self.chance(0.7):
+            kind = 'unbound'
         info = {'kind': kind, 'pos': ctx.pos, 'live': ctx.live, 'in_obj': ctx.in_obj, 'near': None, 'name': None}
         n = self.pick(POOL)
         if kind == 'unbound':
@@ -265,9 +267,9 @@ class Gen(object):
             return '(if ' + E(ctx, 'bool') + ' then ' + E(ctx, 'num') + ' else ' + E(ctx, 'num') + ')'
         if r < 40:
             return self.dead(ctx, 'num')
-        if r < 47:
+        if r < 46:
             return self.call(ctx)
-        if r < 52:
+        if r < 54:
             return self.nearmiss(ctx)
         if r < 59:
             return 'std.length(' + E(ctx, self.pick(['arr', 'obj', 'objc', 'arr', 'str'])) + ')'
@@ -767,8 +769,12 @@ def make_program(seed, nfaults, size, fault_kind=None):
         for i, s in enumerate(g0.sites):
             by[s[0]].append(i)
         faults = set()
+        near_sites = [i for i, s in enumerate(g0.sites) if s[4] and s[3] == 'expr']
         for _ in range(nfaults):
-            if r0.random() < 0.6:
+            u = r0.random()
+            if u < 0.25 and near_sites:
+                faults.add(r0.choice(near_sites))
+            elif u < 0.7:
                 k = r0.choice(sorted(by))
                 faults.add(r0.choice(by[k]))
             else:
